@@ -2,25 +2,25 @@ package main
 
 // plans maps a property to the scenarios its check runs (DESIGN.md §6).
 var plans = map[string][]planItem{
-	"C01": {{Scenario: "c01", Quick: 20000, Thorough: 1200000}},
-	"C02": {{Scenario: "c02", Quick: 6000, Thorough: 400000}},
-	"C03": {{Scenario: "c03", Quick: 20000, Thorough: 1200000}},
-	"C04": {{Scenario: "c04", Quick: 15000, Thorough: 1000000}},
-	"C05": {{Scenario: "c05", Quick: 8800, Thorough: 600000, PerProc: 50}},
-	"C06": {{Scenario: "c06", Quick: 6000, Thorough: 250000}},
-	"C07": {{Scenario: "c07", Quick: 8000, Thorough: 300000}},
-	"C08": {{Scenario: "c08", Quick: 20000, Thorough: 1200000}},
-	"C09": {{Scenario: "c09", Quick: 8000, Thorough: 400000}, {Scenario: "c09", Race: true, Quick: 480, Thorough: 30000}},
-	"C10": {{Scenario: "c10", Quick: 12000, Thorough: 700000, PerProc: 50}},
-	"C11": {{Scenario: "c11", Quick: 14400, Thorough: 1008000}},
-	"C12": {{Scenario: "c12", Quick: 12000, Thorough: 800000}},
-	"C13": {{Scenario: "c13", Quick: 11200, Thorough: 1008000}},
-	"C14": {{Scenario: "c14", Quick: 10000, Thorough: 800000}},
-	"C15": {{Scenario: "c15", Quick: 12000, Thorough: 1000000}},
-	"C16": {{Scenario: "c16", Quick: 16000, Thorough: 1000000}},
-	"C17": {{Scenario: "c17", Quick: 24000, Thorough: 1500000}},
-	"C18": {{Scenario: "c18", Quick: 12000, Thorough: 1000000}},
-	"C20": {{Scenario: "c20", Quick: 12000, Thorough: 1000000}},
+	"C01": {{Scenario: "c01", Quick: 40000, Thorough: 1200000}},
+	"C02": {{Scenario: "c02", Quick: 16000, Thorough: 400000}},
+	"C03": {{Scenario: "c03", Quick: 40000, Thorough: 1200000}},
+	"C04": {{Scenario: "c04", Quick: 30000, Thorough: 1000000}},
+	"C05": {{Scenario: "c05", Quick: 17600, Thorough: 600000, PerProc: 50}},
+	"C06": {{Scenario: "c06", Quick: 12000, Thorough: 250000}},
+	"C07": {{Scenario: "c07", Quick: 16000, Thorough: 300000}},
+	"C08": {{Scenario: "c08", Quick: 40000, Thorough: 1200000}},
+	"C09": {{Scenario: "c09", Quick: 16000, Thorough: 400000}, {Scenario: "c09", Race: true, Quick: 800, Thorough: 30000}},
+	"C10": {{Scenario: "c10", Quick: 24000, Thorough: 700000, PerProc: 50}},
+	"C11": {{Scenario: "c11", Quick: 28800, Thorough: 1008000}},
+	"C12": {{Scenario: "c12", Quick: 24000, Thorough: 800000}},
+	"C13": {{Scenario: "c13", Quick: 22400, Thorough: 1008000}},
+	"C14": {{Scenario: "c14", Quick: 20000, Thorough: 800000}},
+	"C15": {{Scenario: "c15", Quick: 24000, Thorough: 1000000}},
+	"C16": {{Scenario: "c16", Quick: 32000, Thorough: 1000000}},
+	"C17": {{Scenario: "c17", Quick: 48000, Thorough: 1500000}},
+	"C18": {{Scenario: "c18", Quick: 24000, Thorough: 1000000}},
+	"C20": {{Scenario: "c20", Quick: 24000, Thorough: 1000000}},
 }
 
 type meta struct {
@@ -54,7 +54,7 @@ func comp(extraReal, extraStub []string) map[string]any {
 var propMeta = map[string]meta{
 	"C09": {
 		Level:       "exploration",
-		Rule:        "one run = 2-6 concurrent tunnels (websocket and legacy) doing setup, data in both directions (host keeps streaming 2-9 writes), then per tunnel one of: nothing, CLOSE_CHANNEL while the host is still sending, an out-of-phase packet while the host is still sending, abrupt client disconnect (EOF or reset), keep-alives between data packets; 2-5 stalls hold gateway writes mid-message (slow client / slow host) or delay deliveries; interleaving chosen by the tape. Two batches: a plain build (2000 runs) and a race-detector build (240 runs, one run per process, simulator shims invisible to the detector: //go:norace + RaceDisable, discarding logger so that the log mutex does not order goroutines). Violations: a race report in which both accesses have a frame of the repository; a fatal error or unrecovered panic (process death, e.g. concurrent map writes, gorilla's concurrent-write panic); a torn or interleaved websocket frame / packet seen by a client-side deframer, a malformed or foreign DATA payload; non-trivial = >=2 tunnels received host data; distinct = journal shape",
+		Rule:        "one run = 2-6 concurrent tunnels (websocket and legacy) doing setup, data in both directions (host keeps streaming 2-9 writes), then per tunnel one of: nothing, CLOSE_CHANNEL while the host is still sending, an out-of-phase packet while the host is still sending, abrupt client disconnect (EOF or reset), keep-alives between data packets; 2-5 stalls hold gateway writes mid-message (slow client / slow host) or delay deliveries; interleaving chosen by the tape. Two batches: a plain build and a race-detector build (run counts per tier are in this file's runs fields; one run per process in the race build, simulator shims invisible to the detector: //go:norace + RaceDisable, discarding logger so that the log mutex does not order goroutines). Violations: a race report in which both accesses have a frame of the repository; a fatal error or unrecovered panic (process death, e.g. concurrent map writes, gorilla's concurrent-write panic); a torn or interleaved websocket frame / packet seen by a client-side deframer, a malformed or foreign DATA payload; non-trivial = >=2 tunnels received host data; distinct = journal shape",
 		Components:  comp(nil, nil),
 		Assumptions: append([]string{"the race detector only reports races that occur in the explored executions; the simulator widens the windows (a write held for many scheduler steps) but does not enumerate them", "sync.RWMutex of the repository is simulated with reader/writer semantics and the same race-detector annotations as the original"}, commonAssumptions...),
 	},
